@@ -227,6 +227,9 @@ class C02(Property):
     id = "C02"
     title = "Hostile flat input is absorbed: total, confined, bounded, order-free"
     proof_module = "Proofs.C02Order"
+    level_text = 'Lean 4 theorems on the set_flat model: `bounded_fromFlat` (ceiling invariant for every pair list, every nesting, both rebuild modes), `confined_fromFlat` (a non-addressing pair has no effect; every dense schema, any position), `order_free` (invariance under every permutation when no key occurs twice hereditarily); negation witnesses for SparseDict materialisation and index aliases. Totality is observed by correspondence (exception class).'
+    level_note = 'Trusted: Lean kernel + 3 standard axioms; model Flatland/Flat.lean tied by correspondence; the Lean spec `addr` is cross-checked against an independent Python classifier on every pair of every case; scalar set(text) enters as a table; Nd digit table and int digit limit regenerated from the interpreter.'
+    technique = 'Lean 4 proof (invariant by mutual structural induction, confinement, permutation invariance); differential correspondence; Python oracle'
     theorems = [
         "Flatland.Flat.Proofs.bounded_fromFlat",
         "Flatland.Flat.Proofs.bounded_setFlat",
